@@ -151,8 +151,12 @@ def run(ctx):
                            "what": "lookup of %s id %s answered %s during repacking" % ("present" if a["present"] else "missing", a["id"][:8], json.dumps(a["result"])[:200])})
     ctx.cov["stress_lookups"] = lookups
     ctx.cov["rule"] = ("Model: OdbStore instance 2 handles x 2 files x 2 slots (all interleavings). Replay: lookup/maintenance sequences of OdbCalls_Gen "
-                       "(%d steps; quick: all with `repack -a -d` + a seeded sample of the others). Stress: %d runs. Non-trivial/distinct = each "
-                       "sequence with a maintenance step before a lookup, each stress run." % (4 if not ctx.thorough else 5, len(runs)))
+                       "(%d steps; quick: all with `repack -a -d` + a seeded sample of the others). Histories: %d behaviours of OdbHist_Gen drawn by "
+                       "TLC's simulator (30 steps: handles A, B and a handle S with prevent_pack_unload() that is opened and dropped, new packs, "
+                       "repack -a -d, multi-pack-index write, prune-packed) replayed on a store with 3 slots, so slots of deleted packs are kept, "
+                       "given up and reused; an explicit InsufficientSlots error is accepted only while more index files have to be held than "
+                       "there are slots. Stress: %d runs. Non-trivial/distinct = each sequence with a maintenance step before a lookup, each "
+                       "history, each stress run." % (4 if not ctx.thorough else 5, len(hist), len(runs)))
 
 
 def replay(ctx, rec):
